@@ -5,7 +5,8 @@ JUDGE = ("judge.J18", "J18.judge")
 JUDGE_IMPORTS = ("From NSQV Require Import model.Cluster model.Quantile.",)
 JUDGE_SCOPE = "N_scope"
 REPO_BINS = [("nsqadmin", "apps/nsqadmin", "")]
-RULE = ("(view) first, on one generated cluster per mode, EVERY subset of the 4 nsqds failing (x no / one / all nsqlookupds failing) for the counter, topic and channel views and every subset of the 3 nsqlookupds failing for the list views; then generated clusters of recording stub upstreams - 1-3 nsqlookupds or 1-4 directly configured nsqds, 4 stub nsqds with 1-3 topics and 0-3 channels "
+RULE = ("(view) first the F19 witness clusters (null percentile entries for a channel on two nodes, against a quantile-0 entry in both node orders, one node listing the channel twice: 200 and the "
+        "aggregate of the non-null entries; the same clusters are in corpus/C18.json), then, on one generated cluster per mode, EVERY subset of the 4 nsqds failing (x no / one / all nsqlookupds failing) for the counter, topic and channel views and every subset of the 3 nsqlookupds failing for the list views; then generated clusters of recording stub upstreams - 1-3 nsqlookupds or 1-4 directly configured nsqds, 4 stub nsqds with 1-3 topics and 0-3 channels "
         "drawn from small pools (so the same topic/channel lives on several nodes), counters from {0, small, 2^31, 2^40, 2^62, int64 max/min, negative}, clients with and "
         "without hostnames, optional fields present/absent/null (e2e aggregate, clients, zone/region/global counters, a claimed memory_depth), JSON null topics / channels / "
         "clients / producers, fewer tombstone flags than topics, producers that point at nothing, every failing-upstream class (refused, 500, not JSON, wrong JSON type, "
@@ -14,7 +15,8 @@ RULE = ("(view) first, on one generated cluster per mode, EVERY subset of the 4 
         "(the e2e aggregate of the topic, of each of its channels and of the channel view included; a view is 200 unless the stubs' data hold a documented excuse for a 500); "
         "(addfn) the real stringy.Uniq/Union, Producer.UnmarshalJSON, ChannelStats.Add, TopicStats.Add called directly on generated values; the real ChannelStats.Add on e2e blocks "
         "decoded by the real UnmarshalJSON, with a fresh receiver and with the first node's block as the receiver: EVERY zero / non-zero count pattern over 1-3 nodes x 5 ways the nodes' "
-        "percentile sets relate (same, subset, disjoint, reordered, empty), 5-10 nodes, null entries that do and do not make the merge panic, random blocks with small negative counts; "
+        "percentile sets relate (same, subset, disjoint, reordered, empty), 5-10 nodes, null-entry patterns (all-null lists on every node, null against quantile 0, mixed) with both receivers - never a panic - "
+        "and again with nil maps put into the receiver by hand (panic iff an element selects one), random blocks with null entries and small negative counts; "
         "(hostile) the real apps/nsqadmin binary as a subprocess (lookupd mode, direct mode, and with an unreachable --notification-http-endpoint) against the recorded "
         "crash witnesses F4/F8/F12/F13 and random subtree mutations (null, [], {}, numbers, strings, [null], 1e40) of valid /stats, /nodes, /lookup, /info, /topics documents: "
         "observed = the process is still there and answers /ping. Every case is non-trivial; distinct = distinct terms.")
@@ -31,8 +33,8 @@ TRUSTED = [
 ASSUMPTIONS = [
     "e2e latency aggregates: count, max and average per quantile are modelled and judged (weighted mean for counts >= 0, which is what nsqd reports; with negative counts only finiteness and agreement "
     "with the model); the key \"min\" is not (the code sets it to the max of the node merged last) and the entry order is not (sort.Sort by a key no entry has)",
-    "a null percentile entry in the FIRST node's block of a channel of the topic view stays a nil map; a later node's null entry or quantile-0 entry selects it and the assignment panics: a recovered 500 "
-    "(modelled as such, confirmed on the real nsqadmin; the view profile keeps channel blocks free of null entries, the direct calls exercise it)",
+    "null percentile entries are dropped by the decoder (fix dc56edf, F19): the aggregate is that of the non-null entries, for any blocks; a nil map inside a receiver can only be built by hand "
+    "(the direct calls do, to exercise Add's assignment into it: a panic, judged against the model only)",
     "OutOfDate / version comparison of the node list and the client sort order (ClientStatsByNodeTopology) are not modelled",
     "a topic view over nodes of which one reports a JSON null channel, a channel view of a channel no node has, and a node view over a null channel are answered 500 by a recovered handler panic (modelled as such; the process survives)",
     "with no producer at all for a topic the code's len(errs) == len(producers) rule (0 == 0) answers 502; modelled as is",
@@ -42,7 +44,7 @@ LEVEL_TEXT = ("Machine-checked proof (Coq 8.16.1) over an executable model of st
               "channel map, the len(errs) == len(upstreams) rule and the six view handlers: for ANY number of upstreams and ANY contents every aggregated counter (13 per channel, "
               "8 per topic) is the int64 sum over the node entries (exact whenever the sum fits), paused = some node paused, node and client lists are exactly the entries'; "
               "the e2e latency aggregate (E2eProcessingLatencyAggregate.UnmarshalJSON / Add, exact rationals, the division written as a partial operation) of ANY nodes - absent blocks, null entries, "
-              "zero counts on some or all nodes, any percentile sets - is computed without a panic and without a division by zero, has one entry per quantile some node lists, whose count is the sum "
+              "zero counts on some or all nodes, any percentile sets - is computed without a panic (decoded blocks hold no nil map) and without a division by zero, has one entry per quantile some node lists, whose count is the sum "
               "of the counts, whose max is the largest value, and whose average times count is the sum of count x value (the weighted mean; 0 when nothing was counted), independent of the merge order; "
               "topic / node / producer lists are duplicate-free unions of what the answering upstreams list; with any set of failing upstreams the value is the value for the "
               "non-failing ones, a warning iff some fail, 502 iff a stage gets no answer; none of it depends on the order in which the upstreams answer (permutation invariance, "
@@ -54,7 +56,7 @@ LEVEL_TEXT = ("Machine-checked proof (Coq 8.16.1) over an executable model of st
               "differential correspondence on the real nsqadmin (in-process for the views, subprocess for the hostile stream) and on the real functions through verifshim.")
 LEVEL_NOTE = ("Trusted: Coq kernel + vm_compute; the hand-written model; the stubs and parsers of the harness; the correspondence is sampled, the theorems are not. Partial: JSON decoding, "
               "HTTP transport and goroutine interleaving are the Go runtime / standard library (modelled at their interface: decoded values, failed-or-answered, list order); "
-              "the e2e merge is modelled in exact rationals (float64 rounding / overflow and the junk key \"min\" are not); version/out-of-date flags are not modelled.")
+              "the e2e merge is modelled in exact rationals (float64 rounding / overflow are not; the key \"min\" of an aggregated entry, which the code sets to the max of the node merged last, is not part of the property as stated and is left unmodelled and uncompared); version/out-of-date flags are not modelled.")
 TECHNIQUE = "Coq proofs (induction over upstream lists, keyed-fold invariants, guarded-vs-plain refinement for the no-panic claim) + differential correspondence on the real nsqadmin and the real clusterinfo functions"
 DESIGN_REF = "DESIGN.md §5 C18"
 SEARCH_SCALE = 4
